@@ -114,6 +114,38 @@ fn gen_signed(rng: &mut Rng, min: i64, max: i64) -> i64 {
     }
 }
 
+fn gen_u128(rng: &mut Rng) -> u128 {
+    match rng.below(12) {
+        0 => 0,
+        1 => 1,
+        2 => u64::MAX as u128,
+        3 => u64::MAX as u128 + 1,
+        4 => u128::MAX,
+        5 => u128::MAX - 1,
+        6 => i128::MAX as u128,
+        7 => i128::MAX as u128 + 1,
+        8 => rng.next() as u128,
+        _ => ((rng.next() as u128) << 64) | rng.next() as u128,
+    }
+}
+
+fn gen_i128(rng: &mut Rng) -> i128 {
+    match rng.below(14) {
+        0 => 0,
+        1 => -1,
+        2 => i128::MIN,
+        3 => i128::MAX,
+        4 => i128::MIN + 1,
+        5 => i64::MIN as i128 - 1,
+        6 => i64::MAX as i128 + 1,
+        7 => u64::MAX as i128,
+        8 => u64::MAX as i128 + 1,
+        9 => -(u64::MAX as i128) - 1,
+        10 => rng.next() as i64 as i128,
+        _ => (((rng.next() as u128) << 64) | rng.next() as u128) as i128,
+    }
+}
+
 const FLOATS: &[f64] = &[
     0.0, -0.0, 1.0, -1.0, 0.5, 1.5, -2.25, 0.1, 0.2, 0.30000000000000004, 1e21, 1e-7, 123456789.125,
     f64::MAX, f64::MIN, f64::MIN_POSITIVE, 5e-324, 2.2250738585072011e-308, 9007199254740993.0, 1e308, 1.7976931348623157e308,
@@ -136,14 +168,16 @@ fn gen_f64(rng: &mut Rng) -> f64 {
 pub fn gen_val(kind: &Kind, src: Source, rng: &mut Rng) -> Val {
     let flat = src != Source::Json; // path / query / form: text values
     match kind {
-        Kind::U8 => Val::U(gen_unsigned(rng, u8::MAX as u64)),
-        Kind::U16 => Val::U(gen_unsigned(rng, u16::MAX as u64)),
-        Kind::U32 => Val::U(gen_unsigned(rng, u32::MAX as u64)),
-        Kind::U64 => Val::U(gen_unsigned(rng, u64::MAX)),
-        Kind::I8 => Val::I(gen_signed(rng, i8::MIN as i64, i8::MAX as i64)),
-        Kind::I16 => Val::I(gen_signed(rng, i16::MIN as i64, i16::MAX as i64)),
-        Kind::I32 => Val::I(gen_signed(rng, i32::MIN as i64, i32::MAX as i64)),
-        Kind::I64 => Val::I(gen_signed(rng, i64::MIN, i64::MAX)),
+        Kind::U8 => Val::U(gen_unsigned(rng, u8::MAX as u64) as u128),
+        Kind::U16 => Val::U(gen_unsigned(rng, u16::MAX as u64) as u128),
+        Kind::U32 => Val::U(gen_unsigned(rng, u32::MAX as u64) as u128),
+        Kind::U64 => Val::U(gen_unsigned(rng, u64::MAX) as u128),
+        Kind::U128 => Val::U(gen_u128(rng)),
+        Kind::I128 => Val::I(gen_i128(rng)),
+        Kind::I8 => Val::I(gen_signed(rng, i8::MIN as i64, i8::MAX as i64) as i128),
+        Kind::I16 => Val::I(gen_signed(rng, i16::MIN as i64, i16::MAX as i64) as i128),
+        Kind::I32 => Val::I(gen_signed(rng, i32::MIN as i64, i32::MAX as i64) as i128),
+        Kind::I64 => Val::I(gen_signed(rng, i64::MIN, i64::MAX) as i128),
         Kind::F64 => Val::F(gen_f64(rng)),
         Kind::Bool => Val::B(rng.chance(1, 2)),
         Kind::Char => Val::C(gen_char(rng)),
@@ -475,6 +509,15 @@ pub fn bad_text_for(kind: &Kind, rng: &mut Rng, allow_empty: bool) -> Option<Str
                 "- 1".into(), "1e2".into(), "-".into(),
             ]
         }
+        Kind::U128 => vec![
+            "abc".into(), "-1".into(), "340282366920938463463374607431768211456".into(), "1.5".into(), "1e2".into(),
+            "0x10".into(), "".into(), " 1".into(), "12a".into(), "9".repeat(45),
+        ],
+        Kind::I128 => vec![
+            "abc".into(), "170141183460469231731687303715884105728".into(),
+            "-170141183460469231731687303715884105729".into(), "1.5".into(), "--1".into(), "".into(), "-".into(),
+            "1e2".into(),
+        ],
         Kind::F64 => vec!["abc".into(), "1.2.3".into(), "".into(), "1,5".into(), "--1".into(), "1e".into(), "e5".into(), "0x1p3".into()],
         Kind::Bool => vec!["abc".into(), "tru".into(), "truee".into(), "".into(), "t rue".into(), "2".into()],
         Kind::Char => vec!["ab".into(), "".into(), "éé".into(), "😀😀".into()],
@@ -509,6 +552,14 @@ pub fn bad_json_literal_for(kind: &Kind, rng: &mut Rng) -> String {
             };
             vec!["\"abc\"".into(), (max + 1).to_string(), (min - 1).to_string(), "1.5".into(), "false".into(), "{}".into()]
         }
+        Kind::U128 => vec![
+            "\"abc\"".into(), "-1".into(), "340282366920938463463374607431768211456".into(), "1.5".into(), "true".into(),
+            "[]".into(), "\"12\"".into(),
+        ],
+        Kind::I128 => vec![
+            "\"abc\"".into(), "170141183460469231731687303715884105728".into(),
+            "-170141183460469231731687303715884105729".into(), "1.5".into(), "false".into(), "{}".into(),
+        ],
         Kind::F64 => vec!["\"abc\"".into(), "true".into(), "[]".into(), "\"1.5\"".into(), "{}".into()],
         Kind::Bool => vec!["\"true\"".into(), "1".into(), "0".into(), "[]".into()],
         Kind::Char => vec!["\"ab\"".into(), "\"\"".into(), "5".into(), "true".into()],
